@@ -1,0 +1,14 @@
+//go:build verif
+
+package antispam
+
+// VerifC20Counter reads the counter of a source (false: no entry). For the C20 harness. Add-only.
+func (a *Antispammer) VerifC20Counter(id string) (int32, bool) {
+	a.mu.RLock()
+	defer a.mu.RUnlock()
+	s, ok := a.sources[id]
+	if !ok {
+		return 0, false
+	}
+	return s.counter.Load(), true
+}
